@@ -12,7 +12,9 @@ Open Scope N_scope.
 Inductive ev :=
 | EOp (o : mop) (ob : obs)
 | EPoll (i : index) (max : N) (res : option (list N * list N * index))
-| EPool (accepted : bool) (notified : bool).   (* a pool submission: were OnReorg listeners called? *)
+| EPool (accepted : bool) (notified : bool)
+| EOpBlind (o : mop)       (* a call after which nothing was read *)
+| ESee (ob : obs).         (* the store as observed later (best chain, records, MinReorgIndex) *)   (* a pool submission: were OnReorg listeners called? *)
 
 Record case := mk_case { c_univ : list (N * blk); c_evs : list ev }.
 
@@ -35,6 +37,10 @@ Fixpoint check_evs (U : universe) (m : mgr) (es : list ev) : bool :=
       check_poll U m i max res && check_evs U m rest
   | EPool acc nt :: rest =>
       Bool.eqb nt (hnotifies U m (HPool acc)) && check_evs U m rest
+  | EOpBlind op :: rest => check_evs U (mstep U m op).1.1 rest
+  | ESee o :: rest =>
+      eqb_list (o_best o) (best m) && check_known m (o_known o) && (o_minreorg o =? min_reorg m) &&
+      check_evs U m rest
   end.
 
 Definition check_case (c : case) : bool :=
